@@ -1,5 +1,6 @@
 SPECIFICATION TraceSpec
 CONSTANT CachePath <- CP_K
+CONSTANT OpenKF <- KF_OPEN
 INVARIANT InvView
 INVARIANT InvAtomic
 INVARIANT InvClaims
